@@ -43,6 +43,23 @@ pub fn generate(tier: &str, rng: &mut Rng) -> Vec<Spec> {
         v.push(Spec::new("mean").with("N", n).with("ty", if i % 2 == 0 { "f64" } else { "f32" }).with("xs", join_rats(&fx)));
         v.push(Spec::new("mean").with("N", [12usize, 16, 32, 64][i % 4]).with("ty", "rat").with("xs", join_rats(&xs)));
     }
+    // wide windows that are not powers of two, more than two revolutions of the ring
+    for (i, n) in [100usize, 129, 200].iter().enumerate() { for j in 0..(if thorough { 3 } else { 1 }) {
+        let len = 2 * n + 40 + i + j; let xs: Vec<Rat> = (0..len).map(|k| if j == 0 { Rat::int(1000) } else { Rat::int(rng.range(-9, 9) + (k as i64 % 7)) }).collect();
+        v.push(Spec::new("mean").with("N", n).with("ty", "int").with("xs", join_rats(&xs))); } }
+    // narrow integer types with magnitudes such that every window sum fits but window sum + one more sample does not
+    for (ty, lim) in [("i32", i32::MAX as i64), ("u8", 255), ("i8", 127), ("i16", i16::MAX as i64)] { for n in [1usize, 2, 3, 4] { for k in 0..(if thorough { 8 } else { 3 }) {
+        let hi = lim / n as i64; let lo = lim / (n as i64 + 1) + 1; if lo > hi { continue; }
+        let len = n + 3 + k; let xs: Vec<Rat> = (0..len).map(|_| Rat::int(rng.range(lo, hi))).collect();
+        v.push(Spec::new("mean").with("N", n).with("ty", ty).with("xs", join_rats(&xs)));
+        if ty != "u8" { let neg: Vec<Rat> = xs.iter().map(|x| Rat::int(-(x.n as i64))).collect(); v.push(Spec::new("mean").with("N", n).with("ty", ty).with("xs", join_rats(&neg))); }
+    } } }
+    // Clone::clone_from into a filter that has already seen samples, from a source at every fill level
+    for n in [1usize, 2, 3, 4] { for l1 in 0..=(n + 1) { for l2 in 0..=(n + 1) {
+        let g = |rng: &mut Rng, l: usize| (0..l).map(|_| Rat::int(rng.range(-9, 9))).collect::<Vec<Rat>>();
+        let (h1, h2, c) = (g(rng, l1), g(rng, l2), g(rng, n + 4));
+        v.push(Spec::new("mean").with("N", n).with("ty", "clonefrom").with("pre", join_rats(&h1)).with("xs", join_rats(&h2)).with("ys", join_rats(&c)));
+    } } }
     // long runs (internal re-synchronisation or drift only shows after hundreds of samples)
     for i in 0..(if thorough { 40 } else { 10 }) {
         let n = [1usize, 2, 4, 8, 3, 16][i % 6];
@@ -86,6 +103,27 @@ fn run_flt<const N: usize>(f32ty: bool, xs: &[Rat], stats: &mut Stats) -> Outcom
     Outcome::Case(format!("mk {} false {} {} {} {} {} {}", N, cqlist(xs), cqlist(&ys), cbool(panic), copt(&mean, cq), cqlist(&taps), cq(&weight)))
 }
 
+fn run_narrow<const N: usize>(ty: &str, xs: &[Rat], stats: &mut Stats) -> Outcome {
+    macro_rules! go { ($t:ty) => {{ let mut f: Mean<$t, N> = Mean::default(); let mut ys: Vec<i64> = vec![]; let mut panic = false;
+        for x in xs { let v = x.n as $t; match catch(|| f.filter(v)) { Ok(y) => ys.push(y as i64), Err(_) => { panic = true; stats.panics += 1; break } } }
+        let g = f.into_guts(); let taps: Vec<i64> = g.taps.iter().map(|t| *t as i64).collect();
+        (ys, panic, g.mean.map(|m| m as i64), taps, g.weight as i64) }} }
+    let (ys, panic, mean, taps, weight) = match ty { "i32" => go!(i32), "u8" => go!(u8), "i8" => go!(i8), _ => go!(i16) };
+    Outcome::Case(format!("mk {} true {} {} {} {} {} {}", N, cqlist(xs), clist(&ys, |z| qi(*z)), cbool(panic), copt(&mean, |z| qi(*z)), clist(&taps, |z| qi(*z)), qi(weight)))
+}
+fn run_clonefrom<const N: usize>(h1: &[Rat], h2: &[Rat], cont: &[Rat], stats: &mut Stats) -> Outcome {
+    let mut dst: Mean<Rat, N> = Mean::default(); let mut src: Mean<Rat, N> = Mean::default();
+    let mut ys = vec![]; let mut panic = false;
+    let r = catch(|| { for x in h1 { dst.filter(*x); } for x in h2 { src.filter(*x); } dst.clone_from(&src); });
+    if r.is_err() { panic = true; }
+    if !panic { for x in cont { match catch(|| dst.filter(*x)) { Ok(y) => ys.push(y), Err(_) => { panic = true; break } } } }
+    if panic { stats.panics += 1; }
+    let g = dst.into_guts(); let taps: Vec<Rat> = g.taps.iter().cloned().collect();
+    let all: Vec<Rat> = h2.iter().chain(cont.iter()).cloned().collect();
+    // the copy must behave like a filter that has seen h2 and then the continuation: outputs are given for the continuation only
+    Outcome::Case(format!("mk {} false {} {} {} {} {} {}", N, cqlist(&all), cqlist(&ys), cbool(panic), copt(&g.mean, cq), cqlist(&taps), cq(&g.weight)))
+}
+
 pub fn exec(s: &Spec, stats: &mut Stats) -> Outcome {
     let n = s.usize("N");
     stats.bump(format!("N:{}", n)); { let l = s.rats("xs").len(); stats.bump(if l >= 256 { "len:>=256".to_string() } else { format!("len:{}", l / 10 * 10) }); }
@@ -93,9 +131,13 @@ pub fn exec(s: &Spec, stats: &mut Stats) -> Outcome {
         stats.bump(format!("ty:{}", s.get("ty"))); let xs = s.rats("xs"); let f32ty = s.get("ty") == "f32";
         return dispatch_n!(n, run_flt, (f32ty, &xs, stats); 1 2 4 8 16 32);
     }
+    if ["i32", "u8", "i8", "i16"].contains(&s.get("ty")) { stats.bump(format!("ty:{}", s.get("ty"))); let xs = s.rats("xs"); let ty = s.get("ty").to_string();
+        return dispatch_n!(n, run_narrow, (&ty, &xs, stats); 1 2 3 4); }
+    if s.get("ty") == "clonefrom" { stats.bump("clone_from"); let (h1, h2, c) = (s.rats("pre"), s.rats("xs"), s.rats("ys"));
+        return dispatch_n!(n, run_clonefrom, (&h1, &h2, &c, stats); 1 2 3 4); }
     if s.get("ty") == "int" {
         let xs: Vec<i64> = s.rats("xs").iter().map(|r| r.n as i64).collect();
-        dispatch_n!(n, run_int, (&xs, stats); 1 2 3 4 5 6 7 8 16)
+        dispatch_n!(n, run_int, (&xs, stats); 1 2 3 4 5 6 7 8 16 100 129 200)
     } else {
         let xs = s.rats("xs");
         dispatch_n!(n, run_rat, (&xs, stats); 1 2 3 4 5 6 7 8 12 16 32 64)
